@@ -295,7 +295,7 @@ def random_history(rng, c, steps):
     via = c.get('continue_via') or rng.choice(['resume', 'resume', 'resume', 'resume', 'container', 'mixed'])
     run = DimWiseRun(c['D'], c['lmin'], c['lmax'], version=c['version'], rebalancing=c['rebalancing'], boundary=c['boundary'],
                      safety=c['sfn'] / c['sfd'], margin=c.get('margin'), a=c.get('a'), b=c.get('b'), max_hats=c.get('max_hats'), hat_seed=rng.randint(0, 10 ** 6), int_domain=c.get('int_domain', False),
-                     continue_via=via)
+                     continue_via=via, extra=c.get('extra'))
     run.evaluate()
     evs = [observe(run)]
     script = []
